@@ -37,7 +37,9 @@ def main():
         return a + 1j * rng.standard_normal(s) if cplx else a
 
     cases = []
-    for n in (1, 2, 5, 12, 24):
+    w = json.loads(sys.argv[1])
+    sizes = (1, 2, 5, 12, 24) + ((40,) if w.get("tier") == "thorough" else ())
+    for n in sizes:
         for cplx in (False, True):
             cases.append((f"n={n} non-symmetric", rnd(n, n, cplx=cplx) + 0.5 * np.eye(n), cplx, "random"))
             if n >= 5:
@@ -71,18 +73,30 @@ def main():
                 r0n = np.linalg.norm(R0, axis=0)
                 ref = np.zeros(kcols)
                 for c in range(kcols):
-                    Kc = np.stack([np.linalg.matrix_power(M / scale, p) @ R0[:, c] for p in range(min(m, n))], 1)
-                    Qk, _ = np.linalg.qr(Kc)
+                    # orthonormal Krylov basis by Arnoldi with two Gram-Schmidt passes (numerically stable, unlike powers of M)
+                    basis = [R0[:, c] / np.linalg.norm(R0[:, c])]
+                    for _ in range(min(m, n) - 1):
+                        wv = M @ basis[-1]
+                        for _pass in range(2):
+                            for qv in basis:
+                                wv = wv - np.vdot(qv, wv) * qv
+                        nw = np.linalg.norm(wv)
+                        if nw < 1e-10 * np.linalg.norm(M @ basis[-1]):
+                            break
+                        basis.append(wv / nw)
+                    Qk = np.stack(basis, 1)
                     y = np.linalg.lstsq(M @ Qk, R0[:, c], rcond=None)[0]
                     ref[c] = np.linalg.norm(R0[:, c] - M @ Qk @ y)
-                slack = 1e-6 * r0n + 1e-12
+                # floating point: the reference least-squares solution and m steps of single-pass Gram-Schmidt agree to a relative 1e-3 of the
+                # attained residual (plus 1e-6 of the initial one); a Galerkin iterate or a mishandled column is off by orders of magnitude
+                slack = 1e-3 * ref + 1e-6 * r0n + 1e-12
                 if np.any(res > ref + slack):
                     c = int(np.argmax(res - ref))
                     found(clause="the iterate attains the smallest residual over x0 + K_m", input=inp, observed=f"column {c}: residual {res[c]:.4e}", expected=f"{ref[c]:.4e} (initial residual {r0n[c]:.4e})")
                 if np.any(res > r0n * (1 + 1e-9) + 1e-12):
                     c = int(np.argmax(res - r0n))
                     found(clause="residual never exceeds that of the initial guess", input=inp, observed=f"column {c}: {res[c]:.4e}", expected=f"<= {r0n[c]:.4e}")
-                if prev is not None and np.any(res > prev * (1 + 1e-6) + 1e-9 * r0n):
+                if prev is not None and np.any(res > prev * (1 + 1e-3) + 1e-6 * r0n):
                     c = int(np.argmax(res - prev))
                     found(clause="residual non-increasing in m", input=inp, observed=f"column {c}: {res[c]:.4e} at m={m}", expected=f"<= {prev[c]:.4e} (m-1)")
                 if m >= n and np.any(res > 1e-7 * np.maximum(r0n, 1e-300) + 1e-10 * np.linalg.norm(B, axis=0)):
